@@ -466,6 +466,10 @@ def _mk_slice(axis, hi):
     return A("tuple", A("slice", _none(), _none(), _none()), sl)
 
 
+def _is_zero_t(t):
+    return isinstance(t, Term) and t.op == "const" and isinstance(t.args[0], (int, float, Fraction)) and not isinstance(t.args[0], bool) and t.args[0] == 0
+
+
 def _is_none_t(x):
     return isinstance(x, Term) and x.op == "const" and x.args[0] is None
 
@@ -743,6 +747,22 @@ def _const_index(f):
 
 
 class Normalizer:
+    def _scalar_pos(self, t):
+        """syntactically a single integer position: a loop variable, an integer literal, an argmin/argmax, a declared scalar"""
+        if not isinstance(t, Term):
+            return False
+        if t.op == "lv":
+            return True
+        if t.op == "const":
+            return isinstance(t.args[0], (int, Fraction)) and not isinstance(t.args[0], bool) and Fraction(t.args[0]).denominator == 1
+        if t.op in ("argmin", "argmax") and len(t.args) == 1:
+            return True
+        if t.op == "int" and len(t.args) == 1:
+            return self._scalar_pos(t.args[0])
+        if t.op == "sym":
+            return t.args[0] in self.scalar_syms
+        return False
+
     def __init__(self, symmetric=(), scalar_syms=(), rewrite=None):
         self.cache = {}
         self.symmetric = frozenset(symmetric)
@@ -904,6 +924,9 @@ class Normalizer:
             return self.nf(a[0])  # bool() of something that already is a truth value
         if op == "not" and isinstance(a[0], Term) and a[0].op == "not":
             return self.nf(a[0].args[0])
+        if op == "cumsum" and len(a) == 1 and isinstance(a[0], Term) and a[0].op == "concat" and len(a[0].args) == 2 and isinstance(a[0].args[0], Term) and a[0].args[0].op == "list" and len(a[0].args[0].args) == 1 and _is_zero_t(a[0].args[0].args[0]):
+            # running sums of [0] + v: a zero followed by the running sums of v
+            return self.nf(Term("stack", Term("const", Fraction(0)), a[0].args[0], Term("cumsum", a[0].args[1])))
         if op == "getitem":
             base, idx = self._merge_phi_stores(a[0]), a[1]
             # x[i:i+1] selects element i and keeps a unit axis (an identity reshape)
@@ -943,6 +966,9 @@ class Normalizer:
                 inner_i = base.args[1]
                 if isinstance(inner_i, Term) and inner_i.op in ("unique", "nonzero1", "argsort", "list", "setdiff1d", "arange", "flatten", "ravel", "sort"):  # index vectors only: a scalar index would drop the axis
                     return self.nf(Term("getitem", base.args[0], Term("tuple", inner_i, idx.args[1])))
+            # a[i][j] = a[i, j] for two scalar positions
+            if isinstance(base, Term) and base.op == "getitem" and self._scalar_pos(base.args[1]) and self._scalar_pos(idx):
+                return self.nf(Term("getitem", base.args[0], Term("tuple", base.args[1], idx)))
             # a[:h][j] = a[j] and a[:, :h][:, j] = a[:, j] for a fixed element j >= 0 (wherever defined)
             while isinstance(base, Term) and base.op == "getitem":
                 ax = _term_prefix_axis(base.args[1])
@@ -1037,6 +1063,11 @@ class Normalizer:
                     else:
                         pa, pb, ax = P_atom(A_), P_atom(t_atom(B_, self.symmetric)), 1
                     term = self.linear_reduce("sum", (None, ("axis", Term("const", Fraction(ax)))), inner=p_had(pa, pb))
+                elif len(chain) == 3 and chain[1].op == "dg" and not any(x.op in ("dg", "eye", "zeros") for x in (chain[0], chain[2])) and chain[0].op != "t":
+                    # diag(P @ dg(w) @ Q)_i = sum_j P_ij w_j Q_ji : the row sums of P * w * Q^T
+                    A_, D_, B_ = chain
+                    inner_ = p_had(p_had(P_atom(A_), D_.kids[0]), P_atom(t_atom(B_, self.symmetric)))
+                    term = self.linear_reduce("sum", (None, ("axis", Term("const", Fraction(1)))), inner=inner_)
                 else:
                     term = P_atom(A("diagof", chain_atom(chain) if chain else A("one")))
                 out = p_add(out, p_had(coef, term))
